@@ -357,11 +357,15 @@ inline void emplace_n(T *pos, SizeType n, Args &&...args) {
     // construct first: 'args' may refer to one of the elements that are about to be shifted
     ElemStorage<T> e;
     amc::construct_at(e.ptr(), std::forward<Args>(args)...);
-    shift_right(pos, n);
     try {
-      relocate_after_shift(e.ptr(), pos);
+      shift_right(pos, n);
+      try {
+        relocate_after_shift(e.ptr(), pos);
+      } catch (...) {
+        shift_left(pos + 1, n);
+        throw;
+      }
     } catch (...) {
-      shift_left(pos + 1, n);
       amc::destroy_at(e.ptr());
       throw;
     }
@@ -944,21 +948,22 @@ class DynamicVector : public DynamicVectorBaseTypeDispatcher<T, Alloc, SizeType,
       SizeType idx = static_cast<SizeType>(position - this->begin());
       try {
         this->grow(this->size() + 1U);
+        pos = this->begin() + idx;
+        if (nElemsToShift == 0) {
+          amc::relocate_at(e.ptr(), pos);
+        } else {
+          shift_right(pos, nElemsToShift);
+          try {
+            relocate_after_shift(e.ptr(), pos);
+          } catch (...) {
+            shift_left(pos + 1, nElemsToShift);
+            throw;
+          }
+        }
       } catch (...) {
+        // the temporary is relocated (and then destroyed) last: it is still alive whatever has thrown
         amc::destroy_at(e.ptr());
         throw;
-      }
-      pos = this->begin() + idx;
-      if (nElemsToShift == 0) {
-        amc::relocate_at(e.ptr(), pos);
-      } else {
-        shift_right(pos, nElemsToShift);
-        try {
-          relocate_after_shift(e.ptr(), pos);
-        } catch (...) {
-          shift_left(pos + 1, nElemsToShift);
-          throw;
-        }
       }
     } else {
       pos = const_cast<iterator>(position);
@@ -977,12 +982,13 @@ class DynamicVector : public DynamicVectorBaseTypeDispatcher<T, Alloc, SizeType,
       amc::construct_at(e.ptr(), std::forward<Args &&>(args)...);
       try {
         this->grow(this->size() + 1U);
+        endIt = this->dynStorage() + this->size();
+        amc::relocate_at(e.ptr(), endIt);
       } catch (...) {
+        // the temporary is still alive whatever has thrown (growth or its own move constructor)
         amc::destroy_at(e.ptr());
         throw;
       }
-      endIt = this->dynStorage() + this->size();
-      amc::relocate_at(e.ptr(), endIt);
     } else {
       endIt = this->begin() + this->size();
       amc::construct_at(endIt, std::forward<Args &&>(args)...);
